@@ -1,5 +1,6 @@
 import Driver.OpsRange
 import Driver.OpsFields
+import Driver.OpsEngine
 open Driver
 
 def dispatch (args : List String) : String :=
@@ -8,6 +9,7 @@ def dispatch (args : List String) : String :=
   | op :: _ =>
     if op.startsWith "range." || op.startsWith "tok." then opRange args
     else if op.startsWith "field." then opFields args
+    else if op == "engine" then opEngine args
     else "bad-op"
 
 partial def loop (h : IO.FS.Stream) (out : IO.FS.Stream) : IO Unit := do
